@@ -12,6 +12,7 @@ import Ypv.Props.C02
 #print axioms Ypv.C02.path_reresolves_as
 #print axioms Ypv.C02.path_reresolves_aliased
 #print axioms Ypv.C02.path_reresolves_query
+#print axioms Ypv.C02.pop_is_ctxUp
 #print axioms Ypv.Acc.parseWith_texts_join
 #print axioms Ypv.Acc.accObj_eq
 #print axioms Ypv.Acc.escSection_real
